@@ -225,12 +225,7 @@ fn cols_equal<'a>(a: Option<Box<dyn ColLike + 'a>>, b: Option<Box<dyn ColLike + 
 
 /// Equality of everything a `Game` exposes except `hash` (compared separately where relevant).
 pub fn games_equal(a: &Game, b: &Game, with_quirks: bool) -> Result<(), String> {
-	if a.start != b.start {
-		return Err("start differs".into());
-	}
-	if a.start.bytes != b.start.bytes {
-		return Err("start.bytes differ".into());
-	}
+	start_eq(&a.start, &b.start, true)?;
 	if a.end != b.end {
 		return Err(format!("end differs: {:?} vs {:?}", a.end, b.end));
 	}
@@ -253,4 +248,32 @@ pub fn games_equal(a: &Game, b: &Game, with_quirks: bool) -> Result<(), String> 
 		}
 	}
 	frames_equal(&a.frames, &b.frames)
+}
+
+
+/// Field-by-field equality of Game Start (floats bitwise, so NaN payloads compare equal to themselves).
+pub fn start_eq(a: &peppi::game::Start, b: &peppi::game::Start, with_bytes: bool) -> Result<(), String> {
+	macro_rules! f {
+		($($field:ident),*) => { $( if a.$field != b.$field { return Err(format!("start.{} differs: {:?} vs {:?}", stringify!($field), a.$field, b.$field)); } )* };
+	}
+	f!(slippi, bitfield, is_raining_bombs, is_teams, item_spawn_frequency, self_destruct_score, stage, timer, item_spawn_bitfield, random_seed, is_pal, is_frozen_ps, scene, language, r#match);
+	if a.damage_ratio.to_bits() != b.damage_ratio.to_bits() {
+		return Err("start.damage_ratio differs".into());
+	}
+	if with_bytes && a.bytes != b.bytes {
+		return Err("start.bytes differ".into());
+	}
+	if a.players.len() != b.players.len() {
+		return Err(format!("start.players: {} vs {}", a.players.len(), b.players.len()));
+	}
+	for (x, y) in a.players.iter().zip(&b.players) {
+		macro_rules! pf {
+			($($field:ident),*) => { $( if x.$field != y.$field { return Err(format!("start.players[{:?}].{} differs: {:?} vs {:?}", x.port, stringify!($field), x.$field, y.$field)); } )* };
+		}
+		pf!(port, character, r#type, stocks, costume, team, handicap, bitfield, cpu_level, ucf, name_tag, netplay);
+		if x.offense_ratio.to_bits() != y.offense_ratio.to_bits() || x.defense_ratio.to_bits() != y.defense_ratio.to_bits() || x.model_scale.to_bits() != y.model_scale.to_bits() {
+			return Err(format!("start.players[{:?}] ratios differ", x.port));
+		}
+	}
+	Ok(())
 }
